@@ -12,11 +12,26 @@ import (
 const goBin = "/opt/veriftools/go1.26.8/bin/go"
 const goRoot = "/opt/veriftools/go1.26.8"
 
+// verifDir is the root of the verification tree: VERIF_DIR, else the parent of
+// the directory holding this executable (bin/..), else the working directory.
 func verifDir() string {
 	if d := os.Getenv("VERIF_DIR"); d != "" {
 		return d
 	}
+	if exe, err := os.Executable(); err == nil {
+		if d := filepath.Dir(filepath.Dir(exe)); fileExists(filepath.Join(d, "harness", "world.go")) {
+			return d
+		}
+	}
+	if wd, err := os.Getwd(); err == nil && fileExists(filepath.Join(wd, "harness", "world.go")) {
+		return wd
+	}
 	return "/verif"
+}
+
+func fileExists(p string) bool {
+	_, err := os.Stat(p)
+	return err == nil
 }
 
 func repoDir() string {
@@ -33,10 +48,10 @@ func goEnv() []string {
 }
 
 type buildOut struct {
-	Dir      string
-	Plain    string
-	Race     string
-	Yields   bool
+	Dir       string
+	Plain     string
+	Race      string
+	Yields    bool
 	SitesFile string
 }
 
